@@ -552,8 +552,12 @@ def flurry_projection(trace, job, consts):
             m[a] = len(m) + 1
         return m[a]
 
+    cur_g = {}              # t -> position in the schedule of the thread's last granted step
+
     def emit(t, ev):
         last_step[t] = len(out)
+        if t in cur_g:
+            ev["g"] = cur_g[t]
         out.append(ev)
 
     cur_op = {}             # t -> current call (None = outside the alphabet: its events are dropped)
@@ -564,6 +568,8 @@ def flurry_projection(trace, job, consts):
         if k == "quiescent":
             break
         t = e.get("t")
+        if k == "step" and "g" in e:
+            cur_g[t] = e["g"]
         if k == "alloc":
             blocks.append((e["o"], e.get("sz", 0)))
             continue
@@ -594,7 +600,7 @@ def flurry_projection(trace, job, consts):
                 o["pl"] = e.get("n", 0)
             prog[t].append(o)
             cur_op[t] = o
-            out.append({"t": t + 1, "c": "call", "op": o["op"], "k": o["k"]})
+            out.append({"t": t + 1, "c": "call", "op": o["op"], "k": o["k"], "g": cur_g.get(t, 0)})
             continue
         if k == "ret":
             if cur_op.get(t) is None:
